@@ -1191,6 +1191,70 @@ def gen_two_raises_function(rnd):
     return '\n'.join(L) + '\n'
 
 
+def gen_late_def_function(rnd):
+    """a local function whose def statement the breadth-first walk of the graph reaches late: a few statements deep
+    in an else-less branch, at the end of a loop body, in a try body; the closure is called after the join / after the
+    loop / in the next iteration, and a variable it reads is assigned in between and consumed only by that call"""
+    k = [0]
+
+    def key():
+        k[0] += 1
+        return k[0]
+    v, u, w = rnd.sample(_progs.VARS, 3)
+    g = 'g%d' % rnd.randint(50, 59)
+    L = ['def f(a, b, c):', '    %s = T(%d)' % (v, key()), '    %s = T(%d)' % (u, key())]
+
+    def body_def(p, extra_read=False):
+        out = [p + 'def %s():' % g]
+        if rnd.random() < 0.3:
+            out += [p + '    nonlocal %s' % v, p + '    %s += T(%d)' % (v, key())]
+        out.append(p + '    return T(%d, %s%s)' % (key(), v, ', ' + u if extra_read else ''))
+        return out
+    shape = rnd.choice(['branch', 'branch', 'loop', 'loop', 'try'])
+    if shape == 'branch':
+        L.append('    if D(%d):' % key())
+        for _ in range(rnd.randint(1, 3)):
+            L.append('        %s = T(%d)' % (rnd.choice([u, w]), key()))
+        L += body_def('        ', rnd.random() < 0.4)
+        if rnd.random() < 0.3:
+            L.append('        T(%d)' % key())
+    elif shape == 'try':
+        L.append('    try:')
+        for _ in range(rnd.randint(1, 2)):
+            L.append('        %s = T(%d)' % (rnd.choice([u, w]), key()))
+        L.append('        if D(%d):' % key())
+        L.append('            T(%d)' % key())
+        L += body_def('            ')
+        L.append('    except E0:')
+        L.append('        %s = T(%d)' % (w, key()))
+    else:
+        L.append('    while D(%d):' % key() if rnd.random() < 0.6 else '    for i%d in L(%d):' % (key(), key()))
+        if rnd.random() < 0.5:
+            # called by the next iteration before it is re-defined
+            L.append('        if D(%d):' % key())
+            L.append('            %s = %s()' % (w, g))
+            L.append('        %s = T(%d, %s)' % (v, key(), v))
+        for _ in range(rnd.randint(0, 2)):
+            L.append('        %s = T(%d)' % (rnd.choice([u, w]), key()))
+        L += body_def('        ', rnd.random() < 0.4)
+    L.append('    %s = T(%d)' % (w, key()))
+    form = rnd.random()
+    if form < 0.4:
+        L.append('    %s = T(%d)' % (v, key()))
+    elif form < 0.75:
+        L += ['    if D(%d):' % key(), '        %s = T(%d)' % (v, key())]
+    else:
+        L += ['    while D(%d):' % key(), '        %s = T(%d, %s)' % (v, key(), v)]
+    for _ in range(rnd.randint(0, 2)):
+        L.append('    %s = T(%d)' % (w, key()))
+    if rnd.random() < 0.4:
+        L += ['    if D(%d):' % key(), '        %s = %s()' % (w, g)]
+        L.append('    return T(%d, %s)' % (key(), w))
+    else:
+        L.append('    return %s()' % g)
+    return '\n'.join(L) + '\n'
+
+
 def gen_paramless_function(rnd):
     """a function without parameters in which nothing is bound before a loop, and the first binding is the last
     CFG node of the loop body (the in-state of that node is empty when it is first visited)"""
@@ -1530,7 +1594,9 @@ def program_stream(rnd, it):
         return 'lambda', gen_escape_function(rnd, _progs.Opts(reads='safe', max_stmts=16, max_depth=2, raise_=False, try_=False, with_=False),
                                              lambdas=True)
     if k == 18:
-        sel = (it // 20) % 5
+        sel = (it // 20) % 6
+        if sel == 5:
+            return 'late-def', gen_late_def_function(rnd)
         if sel == 4:
             return 'two-raises', gen_two_raises_function(rnd)
         if sel == 3:
